@@ -16,8 +16,7 @@ from symx.runner import explore_parallel, Report, replay_assignment
 from symx.xh import run_e2
 
 NAME_FAMILIES = {'plain': ['src', 'mid', 'side', 'agg', 'tail'],
-                 # one name is the tail of another: exact on the clean tree as long as both are replicated or both are not
-                 # (a replicated 'Sim' beside a non-replicated 'PreSim' is the open finding C03-suffix-overlap-rewrite)
+                 # one name is the tail of another
                  'suffix-pair': ['src', 'Sim', 'PreSim', 'agg', 'tail']}
 
 
@@ -75,9 +74,11 @@ def make_body(k, max_stage):
             R[i] = (not agg[i]) and any(R[j] for j in preds[i])
         rep = {i: (n_rep if R[i] else 1) for i in range(k)}
         if family == 'suffix-pair':
-            ctx.assume(k < 3 or R[1] == R[2])
+            # (until fix 0a3e1fc a replicated 'Sim' beside a non-replicated 'PreSim' was the open finding and was assumed away here)
             if k >= 3 and R[1] and R[2]:
                 ctx.witness('two_replicated_producers_with_overlapping_names')
+            if k >= 3 and R[1] != R[2]:
+                ctx.witness('replicated_and_plain_producer_with_overlapping_names')
         want_nodes = {}
         for i in range(k):
             if R[i]:
@@ -185,11 +186,12 @@ def main(tier, seed, only=None):
                   'per_condition_timeout_s': timeout}
     rep.outside = ['names longer than the bound in the textual layer', 'compile_component_aggregate over a symbolic name of the REPLICATED producer under CrossHair (one path > 90 s; concrete names only, via the structural layer and the native sweep)', 'more than one replication source', 'array-variable indexing with %(replica)s',
                    'DoWhile documents inside replicated regions']
-    rep.assumptions = ['E1 layer uses two concrete name families: non-overlapping names, and one where a name is the tail of another (Sim / PreSim) with both or neither replicated (2 replicas, no file paths); other name interaction is the E2 layer',
+    rep.assumptions = ['E1 layer uses two concrete name families: non-overlapping names, and one where a name is the tail of another (Sim / PreSim; 2 replicas, no file paths); other name interaction is the E2 layer',
                        'CrossHair counterexamples replayed natively before being reported']
     rep.explanation = ('E1: bounded symbolic execution (symx/z3) of the real in-memory loader over a symbolic DAG skeleton against an independent '
                        'expander; E2: CrossHair (z3) over the textual rewriting functions with symbolic characters')
-    rep.required_witnesses = ['replicated_copy_checked', 'aggregator_checked', 'two_replicated_producers_with_overlapping_names']
+    rep.required_witnesses = ['replicated_copy_checked', 'aggregator_checked', 'two_replicated_producers_with_overlapping_names',
+                              'replicated_and_plain_producer_with_overlapping_names']
     if not only or 'xh' in only:
         import harness.xh.c03_contracts as C
         run_e2(rep, 'harness.xh.c03_contracts', timeout, sweep=C.sweep, key=xh_key)
